@@ -37,7 +37,7 @@ def afterJoin (b : Broker) (k : SessKey) (sub : Sub) : Broker :=
       index := idxAdd (b.setSub { sub with members := sub.members ++ [k] }).index k sub.id }
 
 /-- SUBSCRIBE to an existing subscription by a non-member: SUBSCRIBED, then `on_subscribe` only. -/
-theorem syncSubscribe_join {b : Broker} {k : SessKey} {req : Nat} {topic m : String} {p : Nat} {sub : Sub}
+theorem syncSubscribe_join_sends {b : Broker} {k : SessKey} {req : Nat} {topic m : String} {p : Nat} {sub : Sub}
     (hf : b.findTopic topic (matchKind m) = some sub) (hk : k ∉ sub.members) :
     b.syncSubscribe k req topic m p =
       (afterJoin b k sub,
@@ -87,6 +87,145 @@ theorem syncUnsubscribe_sends {b : Broker} {k : SessKey} {req subId p : Nat} {su
     have : del = false := by simpa using hd
     rw [this, hb']
     simp
+
+/-! ### departure of a member (`syncRemoveSession`) -/
+
+/-- session `k` leaves subscription `sub`: the subscription goes with it iff `k` was its last
+    member and it has no history store -/
+def departDeletes (b : Broker) (k : SessKey) (sub : Sub) : Bool :=
+  (sub.members.filter (· != k)).isEmpty && !b.hasHist sub.id
+
+/-- the broker after session `k` has been taken out of subscription `sub` -/
+def afterDepart (b : Broker) (k : SessKey) (sub : Sub) : Broker :=
+  if departDeletes b k sub then b.delSub sub.id
+  else b.setSub { sub with members := sub.members.filter (· != k) }
+
+/-- what the departure of `k` from `sub` announces: `on_unsubscribe` (publication id `pubBase + p`),
+    then — iff the subscription is deleted — `on_delete` (`pubBase + p + 1`); nothing else -/
+def departEvents (b : Broker) (k : SessKey) (sub : Sub) (p : Nat) : List Send :=
+  (afterDepart b k sub).metaEvent MetaEventSubOnUnsubscribe (pubBase + p) k [sidVal k, .int sub.id] ++
+    (if departDeletes b k sub
+     then (afterDepart b k sub).metaEvent MetaEventSubOnDelete (pubBase + p + 1) k [sidVal k, .int sub.id] else [])
+
+/-- the number of publication ids it draws -/
+def departCount (b : Broker) (k : SessKey) (sub : Sub) : Nat := if departDeletes b k sub then 2 else 1
+
+/-- one iteration of `syncRemoveSession` for an existing subscription: `on_unsubscribe`, then
+    `on_delete` iff the subscription was deleted with its last member -/
+theorem removeMember_sends {b : Broker} {k : SessKey} {subId p : Nat} {sub : Sub} (hf : b.findId subId = some sub) :
+    b.removeMember k subId p = (afterDepart b k sub, departEvents b k sub p, departCount b k sub) := by
+  have hid : sub.id = subId := (findId_some hf).2
+  unfold Broker.removeMember departEvents departCount afterDepart departDeletes
+  rw [hf]
+  simp only
+  subst hid
+  by_cases hd : ((sub.members.filter (· != k)).isEmpty && !b.hasHist sub.id) = true
+  · simp only [hd, if_true]
+  · simp only [hd, Bool.false_eq_true, if_false, List.append_nil]
+
+/-- … for an id that names no subscription: nothing -/
+theorem removeMember_unknown {b : Broker} {k : SessKey} {subId p : Nat} (hf : b.findId subId = none) :
+    b.removeMember k subId p = (b, [], 0) := by
+  unfold Broker.removeMember
+  rw [hf]
+
+theorem removeMembers_cons (b : Broker) (k : SessKey) (p id : Nat) (ids : List Nat) :
+    b.removeMembers k p (id :: ids) =
+      (((b.removeMember k id p).1.removeMembers k (p + (b.removeMember k id p).2.2) ids).1,
+       (b.removeMember k id p).2.1 ++ ((b.removeMember k id p).1.removeMembers k (p + (b.removeMember k id p).2.2) ids).2.1,
+       (b.removeMember k id p).2.2 + ((b.removeMember k id p).1.removeMembers k (p + (b.removeMember k id p).2.2) ids).2.2) := rfl
+
+/-- `Departure k b p ids b' sends n`: starting from broker `b` with `p` publication ids drawn, session `k`
+    is taken out of the subscriptions `ids` one after the other; `sends` is, subscription by
+    subscription in that order, `on_unsubscribe` followed by `on_delete` iff the subscription was
+    deleted (each computed in the broker state reached so far, with consecutive publication ids) —
+    and nothing else; `b'` is the final broker, `n` the number of publication ids drawn. -/
+inductive Departure (k : SessKey) : Broker → Nat → List Nat → Broker → List Send → Nat → Prop
+  | done (b : Broker) (p : Nat) : Departure k b p [] b [] 0
+  | member {b : Broker} {p id : Nat} {ids : List Nat} {sub : Sub} {b' : Broker} {ss : List Send} {n : Nat} :
+      b.findId id = some sub →
+      Departure k (afterDepart b k sub) (p + departCount b k sub) ids b' ss n →
+      Departure k b p (id :: ids) b' (departEvents b k sub p ++ ss) (departCount b k sub + n)
+
+theorem findId_delSub_ne (b : Broker) {id id' : Nat} (h : id' ≠ id) : (b.delSub id).findId id' = b.findId id' := by
+  unfold Broker.delSub Broker.findId
+  simp only
+  induction b.subs with
+  | nil => rfl
+  | cons x xs ih =>
+    by_cases hx : x.id = id
+    · have h1 : (x.id != id) = false := by simp [hx]
+      have h2 : (x.id == id') = false := by simpa [hx] using fun e : id = id' => h e.symm
+      simp only [List.filter_cons, List.find?_cons, h1, h2, Bool.false_eq_true, if_false, ih]
+    · have h1 : (x.id != id) = true := by simpa using hx
+      simp only [List.filter_cons, List.find?_cons, h1, if_true, ih]
+
+theorem findId_setSub_ne (b : Broker) (s : Sub) {id' : Nat} (h : id' ≠ s.id) : (b.setSub s).findId id' = b.findId id' := by
+  unfold Broker.setSub Broker.findId
+  simp only
+  induction b.subs with
+  | nil => rfl
+  | cons x xs ih =>
+    by_cases hx : x.id = s.id
+    · have h0 : (x.id == s.id) = true := by simpa using hx
+      have h1 : (s.id == id') = false := by simpa using fun e : s.id = id' => h e.symm
+      have h2 : (x.id == id') = false := by simpa [hx] using fun e : s.id = id' => h e.symm
+      simp only [List.map_cons, List.find?_cons, h0, h1, h2, if_true, ih]
+    · have h0 : (x.id == s.id) = false := by simpa using hx
+      simp only [List.map_cons, List.find?_cons, h0, Bool.false_eq_true, if_false, ih]
+
+theorem findId_afterDepart_ne (b : Broker) (k : SessKey) (sub : Sub) {id' : Nat} (h : id' ≠ sub.id) :
+    (afterDepart b k sub).findId id' = b.findId id' := by
+  unfold afterDepart
+  split
+  · exact findId_delSub_ne b h
+  · exact findId_setSub_ne b _ h
+
+/-- the loop of `syncRemoveSession` over distinct ids of existing subscriptions -/
+theorem removeMembers_departure (k : SessKey) : ∀ (ids : List Nat) (b : Broker) (p : Nat), ids.Nodup →
+    (∀ id ∈ ids, (b.findId id).isSome = true) →
+    Departure k b p ids (b.removeMembers k p ids).1 (b.removeMembers k p ids).2.1 (b.removeMembers k p ids).2.2
+  | [], b, p, _, _ => Departure.done b p
+  | id :: ids, b, p, hn, hall => by
+    obtain ⟨sub, hf⟩ := Option.isSome_iff_exists.mp (hall id (List.mem_cons_self ..))
+    have hid : sub.id = id := (findId_some hf).2
+    rw [removeMembers_cons, removeMember_sends hf]
+    refine Departure.member hf (removeMembers_departure k ids _ _ (List.nodup_cons.mp hn).2 ?_)
+    intro id' hid'
+    have hne : id' ≠ sub.id := by
+      rw [hid]; rintro rfl; exact (List.nodup_cons.mp hn).1 hid'
+    rw [findId_afterDepart_ne b k sub hne]
+    exact hall id' (List.mem_cons_of_mem _ hid')
+
+/-- a session that is subscribed to nothing: its departure changes nothing in the broker and
+    announces nothing -/
+theorem syncRemoveSession_none {b : Broker} {k : SessKey} (p : Nat) (hg : idxGet b.index k = none) :
+    b.syncRemoveSession k p = (b, [], 0) := by
+  unfold Broker.syncRemoveSession
+  rw [hg]
+
+/-- THE DEPARTURE OF A SESSION, as the broker announces it: the ids the loop runs over are exactly
+    the subscriptions `k` is a member of, each once; for each of them, in index order,
+    `on_unsubscribe` followed by `on_delete` iff the subscription was deleted — nothing else. -/
+theorem syncRemoveSession_departure {b : Broker} (hb : BrokerInv b) {k : SessKey} (p : Nat) {ids : List Nat}
+    (hg : idxGet b.index k = some ids) :
+    ids.Nodup ∧ (∀ id, id ∈ ids ↔ b.isMember k id) ∧
+    Departure k { b with index := idxDrop b.index k } p ids
+      (b.syncRemoveSession k p).1 (b.syncRemoveSession k p).2.1 (b.syncRemoveSession k p).2.2 := by
+  have hids : ids.Nodup := hb.index_wf.ids _ (idxGet_some_mem hg)
+  have hmem : ∀ id, id ∈ ids ↔ b.isMember k id := by
+    intro id
+    rw [← hb.index_iff]; unfold idxRel; rw [hg]; simp
+  refine ⟨hids, hmem, ?_⟩
+  have : b.syncRemoveSession k p = Broker.removeMembers { b with index := idxDrop b.index k } k p ids := by
+    unfold Broker.syncRemoveSession; rw [hg]
+  rw [this]
+  refine removeMembers_departure k ids _ p hids ?_
+  intro id hid
+  obtain ⟨s, hs, hsid, _⟩ := (hmem id).mp hid
+  show (b.subs.find? (fun s => s.id == id)).isSome = true
+  rw [List.find?_isSome]
+  exact ⟨s, hs, by simpa using hsid⟩
 
 /-! ### REGISTER / UNREGISTER -/
 
